@@ -147,7 +147,9 @@ def write_init(cfg, seq, d):
     state = ['iff=0', 'im=1', 'tstates={}'.format(t0), 'border=2']
     if machine != '48K':
         state += ['7ffd=0', 'fffd=3', 'ay[3]=77']
-    fname = os.path.join(d, 'init.szx')
+    # the initial snapshot is written in the format that is NOT under test in this configuration,
+    # so that a defect of the mid-run format's writer cannot shift both legs in the same way
+    fname = os.path.join(d, 'init.z80' if cfg['fmt'] == 'szx' else 'init.szx')
     write_snapshot(fname, ram, regs, state, machine)
     from skoolkit.snapshot import Snapshot
     if Snapshot.get(fname).machine != machine:
